@@ -533,3 +533,53 @@ def single_answer(R, rid, fn, must_call, what):
          "%s on every path: %s" % (what, sshow(defs[0], 5)) if defs and not bad else
          "the answer has a definition that is not %s (%s): a shortcut next to the main path answers something else for some inputs" %
          (what, [sshow(d, 6) for d in bad][:2]))
+
+
+ITEM_CONTENT_KINDS = ("Any", "Binary", "Deleted", "Doc", "JSON", "Embed", "Format", "String", "Type", "Move")
+
+
+def kinds_reaching(Y, fn, bb, enum="yrs::block::ItemContent", place_hint="content"):
+    """the variants of `enum` under which block bb can execute: for every switch on the discriminant of a value of that enum
+    that dominates bb, the variants whose edge reaches bb without passing through the switch again; intersected over the
+    switches. Returns (set of variant names, number of switches used)."""
+    names = [v["name"] if isinstance(v, dict) else (v[1] if isinstance(v, (list, tuple)) else v) for v in Y.enums.get(enum, [])] or list(ITEM_CONTENT_KINDS)
+    allk = set(names)
+    cfg = fn.cfg()
+    by = {}
+    for l in F.switch_literals(fn):
+        if isinstance(l.polarity, bool):
+            continue
+        pol = l.polarity
+        listed = [pol] if isinstance(pol, str) else list(pol[1]) if isinstance(pol, tuple) and len(pol) > 1 else []
+        if not listed or not all(x in allk for x in listed):
+            continue
+        if place_hint and place_hint not in show(simp(l.term), 8).lower():
+            continue
+        by.setdefault(l.bb, []).append(l)
+    result = set(allk)
+    used = 0
+    for S, lits in by.items():
+        if S == bb or not cfg.dominates(S, bb):
+            continue
+        used += 1
+        allowed = set()
+        for l in lits:
+            # reach bb from the edge target without going through S again
+            seen, todo = set(), [l.to]
+            hit = False
+            while todo:
+                x = todo.pop()
+                if x in seen or x == S:
+                    continue
+                seen.add(x)
+                if x == bb:
+                    hit = True
+                    break
+                todo.extend(cfg.succ[x])
+            if hit:
+                if isinstance(l.polarity, str):
+                    allowed.add(l.polarity)
+                else:
+                    allowed |= allk - set(l.polarity[1])
+        result &= allowed
+    return result, used
